@@ -135,6 +135,12 @@ class Element:
 
         ei.gbasis = MethodType(gbasis, ei)
 
+        # row i of doflocs is the location of the i'th basis function
+        if isinstance(getattr(self, 'doflocs', None), ndarray):
+            nother = self._bfun_counts()[:3].sum()
+            eo.doflocs = self.doflocs[:nother].copy()
+            ei.doflocs = self.doflocs[nother:].copy()
+
         return ei, eo
 
     def _bfun_counts(self) -> ndarray:
